@@ -100,6 +100,30 @@ def permute_plain_deps(desc, rng):
     return d
 
 
+def add_tool_class_motif(desc, rng):
+    """classes that name tools, a recipe in a sub-directory inheriting one of them with own tools; returns
+    (project, same project plus an unreferenced recipe inheriting several of the classes and naming no tools
+    itself, read before the sub-directory).  Ids are a function of what a step executes and consumes: the
+    mere presence of a recipe nobody uses must not change any."""
+    d = copy.deepcopy(desc)
+    roots = sorted(n for n, r in d["recipes"].items() if r.get("root"))
+    if not roots or any(n in d["recipes"] for n in ("mtprov", "grp::mlib", "aaa_by")):
+        return None
+    key = rng.choice(["buildTools", "buildTools", "packageTools", "buildToolsWeak"])
+    d["recipes"]["mtprov"] = {"packageScript": "echo tools > t.txt\n", "provideTools": {"mta": ".", "mtb": ".", "mtc": "."}}
+    d["classes"]["mca"] = {key: ["mta"]}
+    d["classes"]["mcb"] = {key: ["mtb"]}
+    d["recipes"]["grp::mlib"] = {"inherit": ["mcb"], key: ["mtc"],
+                                 "buildScript": proj.script_for("mlibb", "build", []),
+                                 "packageScript": proj.script_for("mlibp", "package", []) + 'cp -a "$1"/. . 2>/dev/null || true\n'}
+    r = d["recipes"][roots[0]]
+    r["depends"] = [{"name": "mtprov", "use": ["tools"], "forward": True}] + list(r.get("depends", [])) + ["grp::mlib"]
+    w = copy.deepcopy(d)
+    inh = ["mca", "mcb"] if rng.random() < 0.7 else ["mcb", "mca"]
+    w["recipes"]["aaa_by"] = {"inherit": inh, "packageScript": "true\n"}
+    return d, w
+
+
 def dump_at(desc, sandbox, where=None, order=None, hashseed="0", twice=False):
     p = core.scratch_dir("c03") if where is None else where
     try:
@@ -173,6 +197,12 @@ def run(ctx):
             if pd is not None:
                 cfgs.append(("dep-order", pd, dict(sandbox=sandbox)))
         jobs.append(cfgs)
+        # a second family: the same project with tool-naming classes, with and without an unreferenced recipe
+        if rng.random() < 0.6:
+            m = add_tool_class_motif(base, rng)
+            if m is not None:
+                jobs.append([("base", m[0], dict(sandbox=sandbox)), ("unreferenced-recipe", m[1], dict(sandbox=sandbox)),
+                             ("file-order", m[1], dict(sandbox=sandbox, order=random.Random(rng.random())))])
     flat = [(ji, ci) for ji, cfgs in enumerate(jobs) for ci in range(len(cfgs))]
     with ThreadPoolExecutor(max_workers=12) as ex:
         results = list(ex.map(lambda t: dump_at(jobs[t[0]][t[1]][1], **jobs[t[0]][t[1]][2]), flat))
